@@ -4,6 +4,7 @@ package policy
 // iptables fakes (pkg/utils/ipset/testing, pkg/utils/iptables/testing) and to from-scratch listers.
 
 import (
+	"context"
 	"os"
 	"sort"
 
@@ -14,6 +15,8 @@ import (
 	"k8s.io/apimachinery/pkg/labels"
 	"k8s.io/apimachinery/pkg/runtime/schema"
 	"k8s.io/apimachinery/pkg/util/intstr"
+	"k8s.io/client-go/kubernetes"
+	corev1client "k8s.io/client-go/kubernetes/typed/core/v1"
 	corev1lister "k8s.io/client-go/listers/core/v1"
 	networkinglister "k8s.io/client-go/listers/networking/v1"
 	ipsettesting "tkestack.io/galaxy/pkg/utils/ipset/testing"
@@ -91,6 +94,9 @@ type vCluster struct {
 	pods       []*corev1.Pod
 	namespaces []*corev1.Namespace
 	policies   []*networkv1.NetworkPolicy
+	// informerStarted: this galaxy process has seen a network policy in a synchronisation (it then started its pod
+	// informer, which stays synced)
+	informerStarted bool
 }
 
 type vPodLister struct {
@@ -164,7 +170,50 @@ func (l vPolicyNSLister) List(sel labels.Selector) ([]*networkv1.NetworkPolicy, 
 			out = append(out, p)
 		}
 	}
+	if l.ns == "" && len(out) > 0 {
+		l.c.informerStarted = true // syncNetworkPolices starts the pod informer factory when its list is not empty
+	}
 	return out, nil
+}
+
+// ---- the API server as syncPods asks it when the pod informer does not run: the pods of this node
+type vKube struct {
+	kubernetes.Interface
+	c *vCluster
+}
+
+func (k vKube) CoreV1() corev1client.CoreV1Interface { return vCoreV1{c: k.c} }
+
+type vCoreV1 struct {
+	corev1client.CoreV1Interface
+	c *vCluster
+}
+
+func (k vCoreV1) Pods(ns string) corev1client.PodInterface { return vPodClient{c: k.c} }
+
+type vPodClient struct {
+	corev1client.PodInterface
+	c *vCluster
+}
+
+func (k vPodClient) List(ctx context.Context, opts metav1.ListOptions) (*corev1.PodList, error) {
+	out := &corev1.PodList{}
+	for _, p := range k.c.pods {
+		if p.Spec.NodeName == "node1" { // the field selector spec.nodeName=<this node>
+			out.Items = append(out.Items, *p)
+		}
+	}
+	return out, nil
+}
+
+// restartManager: galaxy restarts -- a new PolicyManager over the same kernel state; its pod informer has not started.
+func (w *vWorld) restartManager() {
+	old := w.pm
+	w.c.informerStarted = false
+	w.pm = &PolicyManager{ipsetHandle: old.ipsetHandle, iptableHandle: old.iptableHandle, hostName: "node1", client: vKube{c: w.c},
+		podLister: vPodLister{c: w.c}, namespaceLister: vNamespaceLister{c: w.c}, policyLister: vPolicyLister{c: w.c}}
+	w.pm.podInformerOnce.Do(func() {})
+	w.pm.podCachedInformer = vSyncedInformer{c: w.c}
 }
 
 // ---- construction
@@ -193,10 +242,10 @@ func vNewWorld() *vWorld {
 		vPod("ns2", "web2", "10.0.0.3", "node2", map[string]string{"app": "web"}),
 	}
 	w := &vWorld{c: c, ips: ipsettesting.NewFake("6.29"), ipt: iptablestesting.NewFakeIPTables()}
-	w.pm = &PolicyManager{ipsetHandle: w.ips, iptableHandle: w.ipt, hostName: "node1",
+	w.pm = &PolicyManager{ipsetHandle: w.ips, iptableHandle: w.ipt, hostName: "node1", client: vKube{c: c},
 		podLister: vPodLister{c: c}, namespaceLister: vNamespaceLister{c: c}, policyLister: vPolicyLister{c: c}}
 	w.pm.podInformerOnce.Do(func() {}) // the pod informer factory (client-go machinery) is outside the harness
-	w.pm.podCachedInformer = vSyncedInformer{}
+	w.pm.podCachedInformer = vSyncedInformer{c: c}
 	return w
 }
 
@@ -273,8 +322,8 @@ func vAnyPolicy(name string) *networkv1.NetworkPolicy {
 	return np
 }
 
-// syncAll is one full synchronisation: PolicyManager.Run itself (the pod informer is a stub that reports synced, so
-// syncPods lists the pods through the lister).
+// syncAll is one full synchronisation: PolicyManager.Run itself (the pod informer is a stub that reports synced once
+// this process has seen a policy: syncPods then lists the pods through the lister, before that from the API-server stub).
 func (w *vWorld) syncAll() {
 	w.pm.Run()
 }
